@@ -46,7 +46,7 @@ def displayFrame : List Act := [.cmd Command.DisplayUpdateSequence, W]
 def clearFrame (d : DState) : List Act :=
   cmdData Command.SetRamXAddressCounter [0x00, 0x00] ++
   cmdData Command.SetRamYAddressCounter [0x00, 0x00] ++
-  [.cmd Command.WriteRam, .rep (byteValue d.bg) (WIDTH * HEIGHT)]
+  [.cmd Command.WriteRam, .rep (byteValue d.bg) (WIDTH / 8 * HEIGHT)]   -- (fix 86c3ee0; was WIDTH * HEIGHT)
 
 def prog (_f : Feat) (d : DState) : Op → Option (List Act)
   | .new => some init
